@@ -314,4 +314,6 @@ func runC17(c *core.Ctx) {
 			}
 		}
 	})
+	// part of the report is lost just as well when the run is cut short by a signal: never with status 0
+	interruptedRuns(c, map[string]string{"reg": "log", "print": "log", "reg -s kcal": "log", "bal": "log", "report totals": "log", "csv log": "log", "reg --use-old-reg-reporter": "log", "report element-total kcal": "book"})
 }
